@@ -267,7 +267,7 @@ func runCtx(m *model.Model, s *ob.Set) {
 		}
 	}
 	if nOps < 3 {
-		model.Blind("CTX: only %d operator methods with a z parameter found", nOps)
+		m.Blind("CTX: only %d operator methods with a z parameter found", nOps)
 	}
 }
 
